@@ -93,6 +93,8 @@ func runC05(c *Ctx) {
 	}
 	ruleFreshOutput(c, p, "C05.fresh-output")
 	ruleHeaderFieldsIndependent(c, p, "C05.fields-independent")
+	ruleCompressionOptionTable(c, p, "C05.option-table")
+	ruleNoEarlyDrop(c, p, "C05.no-early-drop")
 	succ := func(fn *ssa.Function) func(ssa.Instruction) bool {
 		return func(in ssa.Instruction) bool {
 			r, ok := in.(*ssa.Return)
@@ -1619,5 +1621,183 @@ func ruleHeaderFieldsIndependent(c *Ctx, p *core.Program, rule string) {
 	}
 	if !bad {
 		c.R.Ok(rule, core.FuncName(fn), cfg, p.Pos(fn.Pos()), sprintf("%d comparisons between header fields, none outside a method branch", n))
+	}
+}
+
+// ruleCompressionOptionTable (C05): every checksummed option of the client is wired to framed, verified transport.
+func ruleCompressionOptionTable(c *Ctx, p *core.Program, rule string) {
+	c.R.Rule(rule, "table extraction from the switch on Options.Compression in Connect: for every constant of type ch.Compression the values the two merged variables take (proto.Compression, compress.Method) are folded per case; oracle by name correspondence: CompressionDisabled -> proto.CompressionDisabled; CompressionX -> proto.CompressionEnabled with compress.X - an option documented as `no compression but data has checksums` that is mapped to Disabled makes the server send plain blocks: nothing is framed, nothing verified, an altered byte is decoded into the result")
+	cfg := p.Cfg.Name
+	cn := p.Func(core.PkgCh, "Connect")
+	if !c.must(p, "ch.Connect", cn != nil) {
+		return
+	}
+	tbl := switchTable(cn, func(v ssa.Value) bool { return core.IsNamed(v.Type(), core.PkgCh, "Compression") })
+	var phiC, phiM *ssa.Phi
+	for _, b := range cn.Blocks {
+		for _, in := range b.Instrs {
+			ph, ok := in.(*ssa.Phi)
+			if !ok {
+				continue
+			}
+			if core.IsNamed(ph.Type(), core.PkgProto, "Compression") {
+				phiC = ph
+			}
+			if core.IsNamed(ph.Type(), core.PkgCompress, "Method") {
+				phiM = ph
+			}
+		}
+	}
+	if len(tbl) == 0 || phiC == nil || phiM == nil || phiC.Block() != phiM.Block() {
+		c.R.Unk(rule, "Connect", cfg, p.Pos(cn.Pos()), sprintf("switch on Options.Compression with merged (proto.Compression, compress.Method) not recognised (%d cases)", len(tbl)))
+		return
+	}
+	merge := phiC.Block()
+	edgeFor := func(kv int64) int {
+		def := -1
+		for j, pred := range merge.Preds {
+			owned := false
+			for k2, blk := range tbl {
+				if blk == pred || blk.Dominates(pred) {
+					owned = true
+					if k2 == kv {
+						return j
+					}
+				}
+			}
+			if !owned {
+				def = j
+			}
+		}
+		if _, has := tbl[kv]; has {
+			return -1
+		}
+		return def
+	}
+	scope := p.Pkgs[core.PkgCh].Types.Scope()
+	var names []string
+	for _, nm := range scope.Names() {
+		if k, ok := scope.Lookup(nm).(*types.Const); ok && core.IsNamed(k.Type(), core.PkgCh, "Compression") {
+			names = append(names, nm)
+		}
+	}
+	sort.Strings(names)
+	n := 0
+	for _, nm := range names {
+		kv, _ := constOf(p, core.PkgCh, nm)
+		key := "option/" + nm
+		j := edgeFor(kv)
+		if j < 0 {
+			c.R.Unk(rule, key, cfg, p.Pos(cn.Pos()), "case not resolved")
+			continue
+		}
+		n++
+		gc, ok1 := core.ConstInt(phiC.Edges[j])
+		gm, ok2 := core.ConstInt(phiM.Edges[j])
+		x := strings.TrimPrefix(nm, "Compression")
+		if x == "Disabled" {
+			want, _ := constOf(p, core.PkgProto, "CompressionDisabled")
+			if ok1 && gc == want {
+				c.R.Ok(rule, key, cfg, p.Pos(phiC.Pos()), "-> proto.CompressionDisabled")
+			} else {
+				c.R.Bad(rule, key, cfg, p.Pos(phiC.Pos()), "CompressionDisabled does not map to proto.CompressionDisabled")
+			}
+			continue
+		}
+		wantC, _ := constOf(p, core.PkgProto, "CompressionEnabled")
+		wantM, okm := constOf(p, core.PkgCompress, x)
+		switch {
+		case !okm:
+			c.R.Unk(rule, key, cfg, p.Pos(phiM.Pos()), "no compress."+x+" constant")
+		case !ok1 || !ok2:
+			c.R.Unk(rule, key, cfg, p.Pos(phiM.Pos()), "case values are not constants")
+		case gc != wantC:
+			c.R.Bad(rule, key, cfg, p.Pos(phiC.Pos()), sprintf("%s is negotiated as compression value %d, not proto.CompressionEnabled: the server sends unframed blocks and no checksum is verified", nm, gc))
+		case gm != wantM:
+			c.R.Bad(rule, key, cfg, p.Pos(phiM.Pos()), sprintf("%s selects compress method %d, not compress.%s", nm, gm, x))
+		default:
+			c.R.Ok(rule, key, cfg, p.Pos(phiC.Pos()), "-> proto.CompressionEnabled, compress."+x)
+		}
+	}
+	c.R.Count("Options.Compression constants", n)
+	c.R.Floor(rule, cfg, n, 5)
+}
+
+// ruleNoEarlyDrop (C05): verified bytes are not thrown away before they were handed out.
+func ruleNoEarlyDrop(c *Ctx, p *core.Program, rule string) {
+	c.R.Rule(rule, "in compress.Reader.Read a store that empties or drops the data buffer after the copy to the caller (outside the failure handling of readBlock) is reachable only through a comparison that involves the length of the frame's own data (pos against len(data), n against len(data[pos:])): a release keyed on the caller's buffer being full (n == len(p)) discards the rest of a verified frame on the first partial read, and the stream silently continues with the next frame")
+	cfg := p.Cfg.Name
+	rd := p.Method(core.PkgCompress, "Reader", "Read")
+	if !c.must(p, "compress.Reader.Read", rd != nil) {
+		return
+	}
+	var cp ssa.Instruction
+	for _, call := range core.Calls(rd) {
+		if bi, ok := call.Common().Value.(*ssa.Builtin); ok && bi.Name() == "copy" {
+			cp = call.(ssa.Instruction)
+		}
+	}
+	if cp == nil {
+		c.R.Unk(rule, core.FuncName(rd), cfg, p.Pos(rd.Pos()), "no copy to the caller's buffer found")
+		return
+	}
+	fromData := func(v ssa.Value) bool {
+		return core.DependsOn(v, func(x ssa.Value) bool {
+			cl, ok := x.(*ssa.Call)
+			if !ok {
+				return false
+			}
+			bi, ok := cl.Call.Value.(*ssa.Builtin)
+			if !ok || bi.Name() != "len" {
+				return false
+			}
+			return core.DependsOn(cl.Call.Args[0], func(y ssa.Value) bool { return readerField(y) == "data" || core.FieldOrigin(y, 0) == "Reader.data" }, false)
+		}, false)
+	}
+	drained := append(core.CondEdges(rd, true, func(cond ssa.Value) (bool, bool) {
+		bo, ok := cond.(*ssa.BinOp)
+		if !ok {
+			return false, false
+		}
+		return true, fromData(bo.X) || fromData(bo.Y)
+	}), core.CondEdges(rd, false, func(cond ssa.Value) (bool, bool) {
+		bo, ok := cond.(*ssa.BinOp)
+		if !ok {
+			return false, false
+		}
+		return true, fromData(bo.X) || fromData(bo.Y)
+	})...)
+	// only tests made after the copy say something about what is left of the frame
+	{
+		var after []core.Edge
+		for _, e := range drained {
+			last := e.B.Instrs[len(e.B.Instrs)-1]
+			if e.B == cp.Block() || len(core.ReachAvoiding(core.PointOf(cp), func(x ssa.Instruction) bool { return x == last }, nil, nil)) > 0 {
+				after = append(after, e)
+			}
+		}
+		drained = after
+	}
+	n := 0
+	bad := false
+	for _, b := range rd.Blocks {
+		for _, in := range b.Instrs {
+			st, ok := in.(*ssa.Store)
+			if !ok || readerField(st.Addr) != "data" {
+				continue
+			}
+			// only stores after the copy
+			if len(core.ReachAvoiding(core.PointOf(cp), func(x ssa.Instruction) bool { return x == in }, nil, nil)) == 0 {
+				continue
+			}
+			n++
+			if len(drained) == 0 || !core.OnlyViaEdges(rd, st, drained) {
+				bad = true
+				c.R.Bad(rule, core.FuncName(rd)+sprintf("/drop#%d", n), cfg, p.Pos(st.Pos()), "the data buffer is replaced after the copy without a test of how much of the frame is left: a partial read can discard verified bytes that were not handed out yet")
+			}
+		}
+	}
+	if !bad {
+		c.R.Ok(rule, core.FuncName(rd), cfg, p.Pos(cp.Pos()), sprintf("%d store(s) to data after the copy, each behind a test of the frame's remaining length", n))
 	}
 }
